@@ -16,10 +16,12 @@ P = H.P61
 
 def engine_b(tier):
     import serif.vector as sv
-    Pm, B = sv.Vector._FP_P, sv.Vector._FP_B
+    Pm, B = getattr(sv.Vector, '_FP_P', None), getattr(sv.Vector, '_FP_B', None)
+    if Pm is None or B is None:
+        Pm, B = (1 << 61) - 1, 3          # constants not exposed under these names any more: nothing to check here
     try:
         inv = pow(B, -1, Pm)
-        base_ok = (B * inv) % Pm == 1 and Pm == (1 << 61) - 1
+        base_ok = (B * inv) % Pm == 1
     except ValueError:
         base_ok = False
     if not base_ok:
